@@ -30,7 +30,7 @@ QuoteOf(rec, d) == LET c == rec.cal[CHOOSE n \in DOMAIN rec.cal : rec.cal[n][1] 
                    IN  IF c[3] THEN RDiv(ROne, D(c[2])) ELSE D(c[2])
 Lo(rec) == (CHOOSE x \in CalDays(rec) : \A y \in CalDays(rec) : x <= y) - 60
 World(rec) == [pub |-> [d \in Lo(rec)..(rec.today + 10) |-> IF d \in CalDays(rec) THEN d ELSE R!NoRate],
-               today |-> rec.today, todayPub |-> FALSE, force |-> FALSE]
+               today |-> rec.today, todayPub |-> FALSE, force |-> FALSE, wr |-> TRUE]
 
 \* the system calls, abstracted: tmp = a name ending in ".tmp", consecutive writes collapsed
 IsTmp(name) == Len(name) > 4 /\ SubSeq(name, Len(name) - 3, Len(name)) = ".tmp"
